@@ -26,71 +26,63 @@ theorem C07_facts :
 any JSON value shape in the body, any field type substitution, any data-packet header — in
 either protocol phase, and whatever the node-wide state, makes the session's step panic, die
 or spin for ever. -/
+theorem admit_no_crash (G : Guards) (B : Backend) (sh : Shared) (s : Sess) (ru : RU) :
+    isCrash (admitPeer G B sh s ru).2.2 = false ∧ (admitPeer G B sh s ru).1.poisoned = sh.poisoned := by
+  unfold admitPeer
+  simp only
+  repeat' split
+  all_goals exact ⟨rfl, rfl⟩
+
+theorem removeConn_poisoned (sh : Shared) (id : Bytes) : (removeConn sh id).poisoned = sh.poisoned := by
+  unfold removeConn; split <;> rfl
+
+theorem checkPeer_no_crash (sh : Shared) (s : Sess) (ru : RU) :
+    isCrash (checkPeer allGuards sh s ru).2.2 = false ∧ (checkPeer allGuards sh s ru).1.poisoned = sh.poisoned := by
+  have hp : poison sh (poisons allGuards ru) = sh := by simp [poisons, allGuards, poison]
+  unfold checkPeer
+  rw [hp]
+  repeat' split
+  all_goals (first | exact ⟨rfl, rfl⟩ | exact ⟨rfl, removeConn_poisoned _ _⟩)
+
 theorem proto_no_crash (B : Backend) (sh : Shared) (s : Sess) (d : Dgram) :
     isCrash (step allGuards B sh s d).2.2 = false := by
   unfold step
   cases d with
   | empty => simp [allGuards, isCrash]
-  | data k =>
-    simp only
-    split
-    · cases k <;> simp [allGuards, isCrash]
-    · simp [isCrash]
+  | data k => simp only; split <;> (try cases k) <;> simp [allGuards, isCrash]
   | route body =>
     simp only
-    split
-    · cases decodeRU body with
-      | none => simp [isCrash]
-      | some ru =>
-        simp only
-        repeat' split
-        all_goals (first | (simp [isCrash]; done) | simp_all)
-    · cases decodeRU body with
-      | none => simp [isCrash]
-      | some ru =>
-        simp only
-        repeat' split
-        all_goals simp [isCrash]
-  | advert body wt =>
-    simp only
-    split
-    · cases decodeAd body wt <;> simp [allGuards, isCrash]
-    · simp [isCrash]
-  | reject => simp only; split <;> simp [isCrash]
-  | other => simp only; split <;> simp [isCrash]
+    cases decodeRU body with
+    | none => rfl
+    | some ru =>
+      simp only
+      split
+      · exact (checkPeer_no_crash sh s ru).1
+      · exact (admit_no_crash allGuards B sh s ru).1
+  | advert body wt => simp only; split <;> (try cases decodeAd body wt) <;> simp [allGuards, isCrash]
+  | reject => rfl
+  | other => rfl
 
 /-- … and never leaves the routing computation in a state where it need not terminate: with
 the cost guard no update with a non-positive cost is ever applied -/
 theorem proto_never_poisons (B : Backend) (sh : Shared) (s : Sess) (d : Dgram) :
     (step allGuards B sh s d).1.poisoned = sh.poisoned := by
-  have hp : ∀ ru, poison sh (poisons allGuards ru) = sh := by intro ru; simp [poisons, allGuards, poison]
-  have hrc : ∀ id, (removeConn sh id).poisoned = sh.poisoned := by intro id; unfold removeConn; split <;> rfl
   unfold step
   cases d with
   | empty => simp only; split <;> rfl
   | data k => simp only; split <;> (try cases k) <;> simp only <;> (try split) <;> rfl
   | route body =>
     simp only
-    split
-    · cases decodeRU body with
-      | none => rfl
-      | some ru =>
-        simp only [hp]
-        repeat' split
-        all_goals (first | rfl | exact hrc _)
-    · cases decodeRU body with
-      | none => rfl
-      | some ru =>
-        simp only
-        repeat' split
-        all_goals rfl
-  | advert body wt =>
-    simp only
-    split
-    · cases decodeAd body wt <;> simp only <;> (try split) <;> rfl
-    · rfl
-  | reject => simp only; split <;> exact hrc _
-  | other => simp only; split <;> rfl
+    cases decodeRU body with
+    | none => rfl
+    | some ru =>
+      simp only
+      split
+      · exact (checkPeer_no_crash sh s ru).2
+      · exact (admit_no_crash allGuards B sh s ru).2
+  | advert body wt => simp only; split <;> (try cases decodeAd body wt) <;> simp only <;> (try split) <;> rfl
+  | reject => exact removeConn_poisoned _ _
+  | other => rfl
 
 /-- … hence no finite sequence of datagrams on a session does -/
 theorem proto_script_no_crash (B : Backend) : ∀ (script : List Dgram) (sh : Shared) (s : Sess),
@@ -111,8 +103,7 @@ theorem proto_script_no_crash (B : Backend) : ∀ (script : List Dgram) (sh : Sh
       cases h with
       | inl h => subst h; exact hd
       | inr h => exact ih _ _ o h
-    · rename_i o' _ _
-      simp only [List.mem_singleton] at h
+    · simp only [List.mem_singleton] at h
       subst h
       exact hd
 
@@ -127,6 +118,8 @@ theorem session_isolated (G : Guards) (B : Backend) (sh : Shared) (s : Sess) (d 
     split
     · exact ho
     · simp [List.mem_filter, ho, hid]
+  have hpo : ∀ b, other ∈ (poison sh b).connections := by
+    intro b; unfold poison; split <;> exact ho
   unfold step
   cases d with
   | empty => simp only; split <;> exact ho
@@ -136,16 +129,15 @@ theorem session_isolated (G : Guards) (B : Backend) (sh : Shared) (s : Sess) (d 
     cases decodeRU body with
     | none => exact ho
     | some ru =>
-      have hpo : ∀ b, other ∈ (poison sh b).connections := by
-        intro b; unfold poison; split <;> exact ho
       simp only
+      unfold checkPeer
       repeat' split
       all_goals (first | exact ho | exact keep _ hne | exact hpo _)
   | advert body wt =>
     simp only [hest, if_true]
     cases decodeAd body wt <;> simp only <;> (try split) <;> exact ho
-  | reject => simp only [hest, if_true]; exact keep _ hne
-  | other => simp only [hest, if_true]; exact ho
+  | reject => exact keep _ hne
+  | other => exact ho
 
 /-! ### Witnesses of the defects of the pinned tree (each guard switched off) -/
 
